@@ -291,7 +291,7 @@ Property &vf::property() {
       {
 #ifndef VERIF_NO_SCHED
           {"schedules", gen_sched, pred_sched, 1600, 6000, 100},
-          {"enumerate", gen_enum, pred_enum, 16, 24, 100, false, 900},
+          {"enumerate", gen_enum, pred_enum, 16, 24, 100, false, 900, 0.35},
           {"yscramble_sched", gen_ysched, pred_ysched, 120, 800, 100},
 #endif
           {"freerun", gen_free, pred_free, 240, 1200, 100},
